@@ -58,17 +58,25 @@ class Heard:
         self.sequential_root: Optional[str] = None   # frames folded in order, level 0 naming the sender
         self.count_level = 0
         self.count_root = 0
+        self.root_at: Optional[float] = None
 
-    def level_msg(self, level: int):
+    PAIR_WINDOW = 1.0     # a root frame and a level-0 frame further apart than this are two announcements, not one pair
+
+    def level_msg(self, level: int, now: Optional[float] = None):
         self.level = level
         self.count_level += 1
         if level == 0:
             self.sequential_root = self.sender
+            if now is not None and self.root_at is not None and now - self.root_at > self.PAIR_WINDOW:
+                # "level 0" long after a root was named is a new announcement (the peer became a branch root): the
+                # root named earlier is superseded, not contradicted
+                self.explicit_root = None
 
-    def root_msg(self, root: str):
+    def root_msg(self, root: str, now: Optional[float] = None):
         self.explicit_root = root
         self.sequential_root = root
         self.count_root += 1
+        self.root_at = now
 
     def roots(self) -> set:
         """Acceptable readings of the peer's branch root (empty: not known yet): the frames
